@@ -49,7 +49,9 @@ def gen(rng, tier):
             'msg': rng.choice([MSS, MSS, 200, 700, 1000]),     # paced flows: bytes handed over per arrival
             'tail': rng.choice([0, 0, 0, 200, 464]),           # flow size need not be a multiple of the MSS
             'rtt_est': rng.choice([0.05, 0.2, 1.0, 3.0]),
-            'cwnd': rng.choice([MSS, 2 * MSS, 4 * MSS, 10 * MSS, 20 * MSS]),
+            # (rarely a window of hundreds of segments: what a long-lived connection on a fat pipe grows into)
+            'cwnd': rng.choice([MSS, 2 * MSS, 4 * MSS, 10 * MSS, 20 * MSS]) if rng.random() > 0.04 else
+            rng.choice([300000, 1 << 19, 700 * MSS]),
             'ssthresh': rng.choice([1024, 2048]) if long_ca else rng.choice([65535, 1024, 2048, 4096, 8192]), 'events': ev}
 
 
